@@ -161,14 +161,15 @@ def as_lin(x):
 MARKER_BYTES = (0xaa, 0x55)
 
 def item_eq(a, b):
-    """equality of two byte items: True / False / None (unknown).  ('x', tag) is a byte known to be neither 0xAA nor 0x55."""
+    """equality of two byte items: True / False / None (unknown).  ('x', tag) is a byte that differs from every byte constant the program
+    mentions (there are finitely many, so such bytes exist): in particular neither 0xAA nor 0x55."""
     if a == b and a[0] in ('c', 'x', 'b'):
         return True
     if a[0] == 'c' and b[0] == 'c':
         return a[1] == b[1]
     for p, q in ((a, b), (b, a)):
         if p[0] == 'x' and q[0] == 'c':
-            return False if q[1] in MARKER_BYTES else None
+            return False
     return None
 
 def bytes_find(hay, needle, start=0):
@@ -2347,11 +2348,23 @@ class Interp:
                 if m in ('find', 'index', 'rfind') and args and isinstance(args[0], ABytes):
                     lo = args[1].v if len(args) > 1 and isinstance(args[1], AInt) else 0
                     hi = args[2].v if len(args) > 2 and isinstance(args[2], AInt) else None
-                    if lo is None or (len(args) > 2 and hi is None) or m == 'rfind':
+                    if lo is None or (len(args) > 2 and hi is None):
                         raise Unknown(f"bytes.{m} with these arguments at line {e.lineno}")
                     hay = o.items if hi is None else o.items[:hi]
                     if lo < 0:
                         lo = max(0, len(o.items) + lo)
+                    if m == 'rfind':
+                        # the last occurrence: the first one from the right (every comparison on the way must be decided)
+                        nd_ = args[0].items
+                        r_ = -1
+                        for i_ in range(len(hay) - len(nd_), lo - 1, -1):
+                            eqs_ = [item_eq(hay[i_ + j_], nd_[j_]) for j_ in range(len(nd_))]
+                            if any(x_ is None for x_ in eqs_):
+                                raise Unknown('a byte comparison inside rfind() is undecided')
+                            if all(eqs_):
+                                r_ = i_
+                                break
+                        return AInt(r_)
                     r_ = bytes_find(hay, args[0].items, lo)
                     if r_ < 0 and m == 'index':
                         raise PyError('ValueError', e.lineno)
